@@ -101,6 +101,7 @@ func main() {
 	fmt.Printf("s2lint: property %s tier %s: loaded %d packages, %d files, %d functions, %d SSA blocks from %s (%.1fs)\n",
 		*prop, *tier, len(ctx.All), ctx.NumFiles, ctx.NumFuncs, ctx.NumBlocks, *repo, time.Since(t0).Seconds())
 
+	rules.InstallLateObligations()
 	var results []core.RuleResult
 	for _, rn := range spec.Rules {
 		if *only != "" && rn != *only {
